@@ -98,7 +98,21 @@ func c13Goal(c *c13Case) string {
 
 const c13AfterBound = 64
 
+var c13FollowUps = []string{"fail.", "X = 1.", "findall(Y, member(Y, [a, b]), L).", "c(N), integer(N).", "put_char(z), X = done.", "catch(rec0, error(E, _), true).", "atom_length(abc, L), \\+ fail.", "(X = a ; X = b)."}
+
+var c13Fresh map[string]string
+
 func c13Run(c *c13Case) (exp, act string, ok bool) {
+	if c13Fresh == nil {
+		fresh := prolog.New(strings.NewReader(""), &bytes.Buffer{})
+		if e := fresh.Exec(c13Program); e != nil {
+			return "program loads", e.Error(), false
+		}
+		c13Fresh = map[string]string{}
+		for _, q := range c13FollowUps {
+			c13Fresh[q] = c13Answers(fresh, q)
+		}
+	}
 	c.Goal = c13Goal(c)
 	ctx, cancel := context.WithCancel(context.Background())
 	defer cancel()
@@ -182,13 +196,10 @@ func c13Run(c *c13Case) (exp, act string, ok bool) {
 	if cw.after > c13AfterBound {
 		return exp, fmt.Sprintf("%d bytes were written after cancel() returned", cw.after), false
 	}
-	// the interpreter is still usable
-	fresh := prolog.New(strings.NewReader(""), &bytes.Buffer{})
-	if e := fresh.Exec(c13Program); e != nil {
-		return exp, e.Error(), false
-	}
-	for _, q := range []string{"X = 1.", "findall(Y, member(Y, [a, b]), L).", "c(N), integer(N).", "put_char(z), X = done.", "catch(rec0, error(E, _), true).", "atom_length(abc, L), \\+ fail."} {
-		got, want := c13Answers(p, q), c13Answers(fresh, q)
+	// the interpreter is still usable: the follow-up queries come IMMEDIATELY after the cancelled call (what
+	// a fresh interpreter answers was recorded beforehand, so that nothing else runs in between)
+	for _, q := range c13FollowUps {
+		got, want := c13Answers(p, q), c13Fresh[q]
 		if got != want {
 			return exp + "; " + q + " answers " + want, "after the cancellation " + q + " answers " + got, false
 		}
@@ -206,7 +217,7 @@ func c13Run(c *c13Case) (exp, act string, ok bool) {
 }
 
 func c13Answers(p *prolog.Interpreter, q string) string {
-	ctx, cancel := context.WithTimeout(context.Background(), 20*time.Second)
+	ctx, cancel := context.WithTimeout(context.Background(), 5*time.Second)
 	defer cancel()
 	sols, err := p.QueryContext(ctx, q)
 	if err != nil {
@@ -269,6 +280,14 @@ func c13Work(w *h.W) {
 					for k := 0; k <= maxK; k++ {
 						ks = append(ks, k)
 					}
+					// deep into the run: thousands of iterations, so that whatever grows with the run
+					// (the machine's stacks, the trail, the database) is large at the instant of cancellation
+					if len(wr) == 1 || w.Thorough() {
+						ks = append(ks, 300, 3000, 12000)
+						if w.Thorough() {
+							ks = append(ks, 1000, 5000, 40000)
+						}
+					}
 				}
 				for _, k := range ks {
 					if !w.Mine() {
@@ -327,8 +346,8 @@ func c13Replay(b []byte) (string, string, bool) {
 func init() {
 	h.Register(&h.Check{
 		ID: "C13",
-		Rule: "all (loop, wrapper, position, cancellation instant) combinations: 13 loops (repeat-driven with a Prolog and with a Go built-in failing, direct / mutual / non-tail recursion, between/3, length/2, retract/assertz ping-pong, and 5 loops that write nothing) x wrappers {none, findall, bagof, setof, \\+, \\+\\+, catch with true / with the loop again as recovery, call, once, ;, ->} nested to depth 1 (quick: plus 7 depth-2 nestings; thorough: all depth-2 nestings) x positions {query, second answer of a query, directive of an Exec text, initialization/1 goal, body of a user term_expansion/2 during Exec, file consulted through Interpreter.FS by consult/1 and by an ensure_loaded/1 directive - after which the same file must be loadable} x cancellation instant k = 0 (already cancelled) .. K where the real cancel() is called by the output writer when the k-th byte arrives (every loop writes a byte before each goal, so k enumerates every phase of every iteration); silent loops are cancelled from a timer at several delays. Distinct = (goal, position, k).",
-		Explanation: "state = a fresh real interpreter with the loop program; transition = the pending QueryContext/Next or ExecContext call, which must return the context's error; at most 64 bytes may reach the writer after cancel() returned (a step bound, not a clock); afterwards six follow-up queries must answer as on a fresh interpreter; a call that has not returned after the 60 s horizon is reported by the worker's watchdog ('does not return')",
+		Rule: "all (loop, wrapper, position, cancellation instant) combinations: 13 loops (repeat-driven with a Prolog and with a Go built-in failing, direct / mutual / non-tail recursion, between/3, length/2, retract/assertz ping-pong, and 5 loops that write nothing) x wrappers {none, findall, bagof, setof, \\+, \\+\\+, catch with true / with the loop again as recovery, call, once, ;, ->} nested to depth 1 (quick: plus 7 depth-2 nestings; thorough: all depth-2 nestings) x positions {query, second answer of a query, directive of an Exec text, initialization/1 goal, body of a user term_expansion/2 during Exec, file consulted through Interpreter.FS by consult/1 and by an ensure_loaded/1 directive - after which the same file must be loadable} x cancellation instant k = 0 (already cancelled) .. K where the real cancel() is called by the output writer when the k-th byte arrives (every loop writes a byte before each goal, so k enumerates every phase of every iteration) plus the deep instants k = 300, 3000, 12000 (thorough: 1000, 5000, 40000 too) at which the machine's stacks hold thousands of entries; silent loops are cancelled from a timer at several delays. Distinct = (goal, position, k).",
+		Explanation: "state = a fresh real interpreter with the loop program; transition = the pending QueryContext/Next or ExecContext call, which must return the context's error; at most 64 bytes may reach the writer after cancel() returned (a step bound, not a clock); immediately afterwards eight follow-up queries (failing, single-answer, enumerated to exhaustion, erroneous) must answer as on a fresh interpreter; a call that has not returned after the 60 s horizon is reported by the worker's watchdog ('does not return')",
 		Assumptions: []string{"the implementation can observe a cancellation only at a poll, so instants fall into classes 'first poll that sees it'; the byte-triggered seam lands in every class of the loops that write", "the 60 s horizon is not a latency oracle (expected: microseconds)"},
 		Work:        c13Work,
 		Replay:      c13Replay,
